@@ -272,14 +272,39 @@ func (s *Storage) LoadRules(f func(k, v string)) error {
 	return s.LoadRangeByPrefix(rulesPath+"/", f)
 }
 
+// RuleGroupKey builds the storage key of a rule group config. The group id is
+// chosen by the client and is joined as a path element (here and again by the
+// etcd backend), so an id that path cleaning alters ("..", "../raft", "a/../b",
+// "a/", "/a", ".") would address another key: another group's config or a key
+// outside the rule group prefix. Such ids are refused.
+func RuleGroupKey(groupID string) (string, error) {
+	key := path.Join(ruleGroupPath, groupID)
+	if groupID == "" || key != ruleGroupPath+"/"+groupID {
+		return "", errors.Errorf("invalid rule group id %q", groupID)
+	}
+	return key, nil
+}
+
 // SaveRuleGroup stores a rule group config to storage.
 func (s *Storage) SaveRuleGroup(groupID string, group interface{}) error {
-	return s.SaveJSON(ruleGroupPath, groupID, group)
+	key, err := RuleGroupKey(groupID)
+	if err != nil {
+		return err
+	}
+	value, err := json.Marshal(group)
+	if err != nil {
+		return errs.ErrJSONMarshal.Wrap(err).GenWithStackByArgs()
+	}
+	return s.Save(key, string(value))
 }
 
 // DeleteRuleGroup removes a rule group from storage.
 func (s *Storage) DeleteRuleGroup(groupID string) error {
-	return s.Remove(path.Join(ruleGroupPath, groupID))
+	key, err := RuleGroupKey(groupID)
+	if err != nil {
+		return err
+	}
+	return s.Remove(key)
 }
 
 // LoadRuleGroups loads all rule groups from storage.
